@@ -97,6 +97,9 @@ def mp_module():
     mp.Pool = SerialPool
     mp.Lock = ModelLock
     mp.set_start_method = lambda *a, **k: None
+    mp.cpu_count = multiprocessing.cpu_count
+    mp.get_start_method = lambda *a, **k: "fork"
+    mp.current_process = multiprocessing.current_process
     mp.Process = multiprocessing.Process
     mp.pool = types.ModuleType("multiprocessing.pool")
     mp.pool.Pool = multiprocessing.pool.Pool
